@@ -272,7 +272,7 @@ theorem fieldStmt_leaf (H : Hyp c e r orig) (k : Name) (ty : GType) (b : Bool) :
   have key : ∀ fs, (k, fs) ∈ g → ∃ f0 rest, fs = f0 :: rest ∧ f0.name = t.name := by
     intro fs hfs
     obtain ⟨f0, rest, al, hfs', hpu⟩ := group_head hpe hg hfs
-    have := (hcoh.1 _ _ (pu_all hpu) (pu_all ht) (by simp [hkey])).2.1
+    have := (cohAt_full hcoh _ _ (pu_all hpu) (pu_all ht) (by simp [hkey])).2.1
     exact ⟨f0, rest, hfs', this⟩
   constructor
   · intro kvs hF _
@@ -324,7 +324,7 @@ theorem fieldStmt_object (k : Name) (T : SelTree) (hT : TreeStmt c e r orig T) :
   have key : ∀ fs, (k, fs) ∈ g → ∃ f0 rest, fs = f0 :: rest ∧ f0.name = t.name := by
     intro fs hfs
     obtain ⟨f0, rest, al, hfs', hpu⟩ := group_head hpe hg hfs
-    have := (hcoh.1 _ _ (pu_all hpu) (pu_all ht) (by simp [hkey])).2.1
+    have := (cohAt_full hcoh _ _ (pu_all hpu) (pu_all ht) (by simp [hkey])).2.1
     exact ⟨f0, rest, hfs', this⟩
   have htn' : ¬ (t.name == "__typename") = true := by simp [htn]
   constructor
